@@ -6,11 +6,13 @@ import (
 	"encoding/json"
 	"fmt"
 	"math/big"
+	"math/rand"
 	"os"
 	"os/exec"
 	"path/filepath"
 	"regexp"
 	"sort"
+	"strconv"
 	"strings"
 	"sync"
 
@@ -22,6 +24,9 @@ import (
 
 	orbiterkeeper "github.com/noble-assets/orbiter/v2/keeper"
 	orbitertypes "github.com/noble-assets/orbiter/v2/types"
+	adaptertypes "github.com/noble-assets/orbiter/v2/types/component/adapter"
+	executortypes "github.com/noble-assets/orbiter/v2/types/component/executor"
+	forwardertypes "github.com/noble-assets/orbiter/v2/types/component/forwarder"
 
 	"orbverif/fw"
 	"orbverif/run"
@@ -103,18 +108,64 @@ func renderEvents(evs []abci.Event) string {
 }
 
 // Replay builds a fresh deterministic world and feeds it the stream.
-func Replay(st *Stream) (*Trace, error) {
+func Replay(st *Stream) (*Trace, error) { return ReplayNoise(st, 0) }
+
+// ReplayNoise is Replay on a node with local activity that is not part of the history: between
+// blocks the node simulates transactions and runs handlers on discarded branches (what RPC
+// clients make a node do) and answers queries. None of it may change what the blocks compute.
+func ReplayNoise(st *Stream, noise int64) (*Trace, error) {
 	l, err := NewLab(world.Config{Channels: st.Channels})
 	if err != nil {
 		return nil, err
 	}
-	return replayOn(l, st)
+	return replayOn(l, st, noise)
 }
 
-func replayOn(l *Lab, st *Stream) (*Trace, error) {
+// localNoise performs one node-local activity on committed state; everything is discarded.
+func localNoise(w *world.World, r *rand.Rand) {
+	defer func() { _ = recover() }()
+	auth := w.Authority.String()
+	var msg sdk.Msg
+	switch r.Intn(7) {
+	case 0:
+		msg = &adaptertypes.MsgUpdateParams{Signer: auth, Params: adaptertypes.Params{MaxPassthroughPayloadSize: uint32(r.Intn(5000))}}
+	case 1:
+		msg = &forwardertypes.MsgPauseProtocol{Signer: auth, ProtocolId: ProtoName[int32(2+r.Intn(3))]}
+	case 2:
+		msg = &forwardertypes.MsgUnpauseProtocol{Signer: auth, ProtocolId: ProtoName[int32(2+r.Intn(3))]}
+	case 3:
+		msg = &executortypes.MsgPauseAction{Signer: auth, ActionId: "ACTION_FEE"}
+	case 4:
+		msg = &executortypes.MsgUnpauseAction{Signer: auth, ActionId: "ACTION_FEE"}
+	case 5:
+		msg = &forwardertypes.MsgPauseCrossChains{Signer: auth, ProtocolId: "PROTOCOL_CCTP", CounterpartyIds: []string{fmt.Sprint(r.Intn(6))}}
+	default:
+		msg = &forwardertypes.MsgUnpauseCrossChains{Signer: auth, ProtocolId: "PROTOCOL_CCTP", CounterpartyIds: []string{fmt.Sprint(r.Intn(6))}}
+	}
+	// a handler run on a branch that is thrown away
+	branch, _ := w.Ctx().CacheContext()
+	w.Handle(branch, msg)
+	// the same as a simulated transaction
+	if bz, err := w.SignTx([]sdk.Msg{msg}, 0, w.Authority); err == nil {
+		_, _, _ = w.App.Simulate(bz)
+	}
+	// queries
+	ctx := w.Ctx()
+	_, _ = orbiterkeeper.NewQueryServer(w.App.OrbiterKeeper).ActionIDs(ctx, &orbitertypes.QueryActionIDsRequest{})
+	_ = w.App.OrbiterKeeper.ExportGenesis(ctx)
+}
+
+func replayOn(l *Lab, st *Stream, noise int64) (*Trace, error) {
 	w := l.W
 	tr := &Trace{}
+	var nr *rand.Rand
+	if noise != 0 {
+		nr = rand.New(rand.NewSource(noise))
+	}
 	for _, b := range st.Blocks {
+		if nr != nil && nr.Intn(2) == 0 {
+			localNoise(w, nr)
+		}
 		ctx := w.Ctx()
 		for _, f := range b.Forges {
 			w.ForgePacketSeq(ctx, world.ChannelPair{A: f.A, B: f.B}, f.Data, f.Seq)
@@ -249,6 +300,12 @@ func RecordStream(e *fw.Env, channels, blocks int) (*Stream, *Trace, error) {
 			multi = append(multi, m.Memo)
 		}
 	}
+	var ambiguous []MemoMut
+	for _, m := range corpus {
+		if strings.HasPrefix(m.Kind, "oneof-") {
+			ambiguous = append(ambiguous, m)
+		}
+	}
 	rel := w.K("relayer")
 	seq := uint64(1 << 42)
 	// the recording world executes each block as it is generated (sequences come from state)
@@ -260,7 +317,11 @@ func RecordStream(e *fw.Env, channels, blocks int) (*Stream, *Trace, error) {
 		nRecv := 1 + e.R.Intn(3)
 		for k := 0; k < nRecv; k++ {
 			var t run.Transfer
-			switch e.R.Intn(10) {
+			switch e.R.Intn(11) {
+			case 10: // memos the codec may read in more than one way (both members of a oneof)
+				m := ambiguous[e.R.Intn(len(ambiguous))]
+				t = l.NewTransfer(e.R, m.Denom, big.NewInt(1_000_000), nil)
+				t.Memo = m.Memo
 			case 0, 1, 2: // mutated memo (mostly error acknowledgements)
 				m := corpus[e.R.Intn(len(corpus))]
 				t = l.NewTransfer(e.R, m.Denom, big.NewInt(1_000_000), nil)
@@ -419,12 +480,12 @@ func CheckC19(e *fw.Env, _ *Lab) {
 	}
 	// sequential in-process replays
 	for i := 0; i < 2; i++ {
-		tr, err := Replay(st)
+		tr, err := ReplayNoise(st, int64(i)*(e.Seed*1000+int64(e.Shard)+7))
 		if err != nil {
 			e.Res.Inconc("replay: %v", err)
 			return
 		}
-		report(fmt.Sprintf("in-process replay %d", i), tr)
+		report(fmt.Sprintf("in-process replay %d%s", i, map[bool]string{true: " (with node-local simulations and queries)", false: ""}[i > 0]), tr)
 	}
 	// parallel goroutine worlds
 	var wg sync.WaitGroup
@@ -434,7 +495,7 @@ func CheckC19(e *fw.Env, _ *Lab) {
 		wg.Add(1)
 		go func(g int) {
 			defer wg.Done()
-			trs[g], errs[g] = Replay(st)
+			trs[g], errs[g] = ReplayNoise(st, int64(g%2)*(e.Seed*977+int64(g)+3))
 		}(g)
 	}
 	wg.Wait()
@@ -460,6 +521,7 @@ func CheckC19(e *fw.Env, _ *Lab) {
 	for p := 0; p < procs; p++ {
 		tf := filepath.Join(dir, fmt.Sprintf("trace_%d_%d.json", e.Shard, p))
 		cmd := exec.Command(self, "c19replay", sf, tf)
+		cmd.Env = append(os.Environ(), fmt.Sprintf("C19_NOISE=%d", int64(p%2)*(e.Seed*31+int64(p)+11)))
 		out, err := cmd.CombinedOutput()
 		if err != nil {
 			e.Res.Inconc("replay process failed: %v: %s", err, trunc(string(out), 500))
@@ -544,7 +606,8 @@ func C19ReplayMain(streamFile, traceFile string) error {
 	if err := json.Unmarshal(bz, &st); err != nil {
 		return err
 	}
-	tr, err := Replay(&st)
+	noise, _ := strconv.ParseInt(os.Getenv("C19_NOISE"), 10, 64)
+	tr, err := ReplayNoise(&st, noise)
 	if err != nil {
 		return err
 	}
